@@ -221,7 +221,10 @@ func (r *Recorder) Ranges(ctx context.Context, ranges []ldiff.Range, resBuf []ld
 	}
 	k := h.Sum64()
 	if _, ok := r.seen[k]; ok {
+		// the same request list again: with static indexes the exchange has entered a cycle
 		r.Repeat = true
+		r.Tripped = true
+		return nil, ErrWatchdog
 	}
 	r.seen[k] = struct{}{}
 	if r.Rounds > r.Limit {
